@@ -76,7 +76,7 @@ def parse_fields(line, keys):
     return out
 
 REFK = ("na", "alpha", "res", "chosen", "feasible", "x", "H1", "residual")
-OUTK = ("ret", "x", "H1", "residual", "calcs", "consumed", "steps", "trace")
+OUTK = ("ret", "x", "H1", "residual", "calcs", "consumed", "steps", "drift", "trace")
 
 def run_sched_cases(exe, lines, timeout_each=20.0):
     """runs case lines through `harness sched`; restarts after a process-ending failure (DEADLOCK etc.) or a hang.
@@ -414,10 +414,10 @@ def run(info, out):
             if dfrom(int(d["x"][fi], 16)) == 0.0:
                 d["x"][fi] = H(0.5 + 0.1 * k)
         datas.append(d)
-        cap = (200000 if thorough else 1500) * boost
+        cap = (8000 if thorough else 1500) * boost
         plan.append((len(datas) - 1, N, "cover %d %d" % (cap, rng.below(1 << 20))))
     #    (b) random data, N in 1..4 and beyond the number of trial steps, random walks with spurious wake-ups
-    nrand = (120 if thorough else 24) * boost
+    nrand = (80 if thorough else 24) * boost
     for k in range(nrand):
         d = gen_data(rng)
         datas.append(d)
